@@ -177,6 +177,11 @@ impl SessionPool {
                 continue;
             }
 
+            // A session that still carries streams is in use, not idle: housekeeping must not close it
+            if pooled.session.has_open_streams().await {
+                continue;
+            }
+
             // Keep sessions that haven't expired
             if idle_duration < self.config.idle_timeout {
                 active_count += 1;
@@ -263,6 +268,11 @@ impl SessionPool {
 
                     if pooled.session.is_closed() {
                         to_remove.push(*seq);
+                        continue;
+                    }
+
+                    // A session that still carries streams is in use, not idle
+                    if pooled.session.has_open_streams().await {
                         continue;
                     }
 
